@@ -90,7 +90,7 @@ def obs_tree(n, _depth=0):
     """Real AST node -> shadow tree, keeping operand *positions* (None where missing)."""
     if n is None:
         return None
-    if _depth > 60:
+    if _depth > 5000:
         return ('obj', 'too-deep', '')
     data = n.data
     if isinstance(data, ASTOperation):
